@@ -46,6 +46,7 @@ type Engine struct {
 	typeContracts map[string]*Contract // "pkgpath.Type" or "pkgpath.Type.Method"
 	overlayDecls  map[*types.Func]*ast.FuncDecl
 	ghostPreds    map[*types.Func]*Pred
+	funPreds      map[*types.Func]*Pred
 	clauseInfo    map[*Clause]*types.Info
 	loopCache     sync.Map
 	implCache     sync.Map
@@ -232,6 +233,7 @@ func (e *Engine) Load() error {
 	e.typeContracts = map[string]*Contract{}
 	e.overlayDecls = map[*types.Func]*ast.FuncDecl{}
 	e.ghostPreds = map[*types.Func]*Pred{}
+	e.funPreds = map[*types.Func]*Pred{}
 	e.clauseInfo = map[*Clause]*types.Info{}
 	e.files = map[string]*ast.File{}
 	for _, p := range pkgs {
@@ -268,6 +270,11 @@ func (e *Engine) Load() error {
 			if pr.Ghost {
 				if obj, ok := p.TypesInfo.Defs[pr.Decl.Name].(*types.Func); ok {
 					e.ghostPreds[obj] = pr
+				}
+			}
+			if pr.Fun && pr.Decl != nil {
+				if obj, ok := p.TypesInfo.Defs[pr.Decl.Name].(*types.Func); ok {
+					e.funPreds[obj] = pr
 				}
 			}
 		}
@@ -739,4 +746,22 @@ func (e *Engine) ghostRetType(iface, name string) string {
 		}
 	}
 	return ""
+}
+
+// unrollable: inlined helpers whose loops are unrolled at the call site instead of being cut at an
+// invariant (their trip count is a literal there, e.g. a variadic option list).
+func (e *Engine) unrollable(fn *ssa.Function) bool {
+	f := fn
+	for f.Parent() != nil {
+		f = f.Parent()
+	}
+	if f.Pkg == nil {
+		return false
+	}
+	ps := e.specs[f.Pkg.Pkg.Path()]
+	if ps == nil {
+		// packages without a contract file: only the flag-passing helper package is unrolled
+		return strings.HasSuffix(f.Pkg.Pkg.Path(), "/types/node/bc")
+	}
+	return false
 }
